@@ -11,11 +11,21 @@
 (* of a small depth).  harness/drv_life.c replays the printed call lists.                         *)
 EXTENDS Image, Json
 
-CONSTANTS Depth
+(* Pressure mode (PressSpec): histories of ONE glyph cache that bring its table into a chosen situation (Goal, one   *)
+(* of Image!GPressureClasses) and thaw it there, so that every threshold an outermost thaw compares the table with    *)
+(* is crossed, with glyphs alive on both sides of it; afterwards the survivors are drawn and either removed one by    *)
+(* one or left to destroy.  To know when the table is in that situation the generator models where tombstones stay:   *)
+(* the driver gives key k a concrete key whose home slot is k (gcreate v = 1), so nothing collides, a removal leaves   *)
+(* a tombstone unless the next slot is empty (then the run of tombstones ending there is cleared), and an insert      *)
+(* takes its own slot back.  This layout model only steers the generator; the recorded thaw is classified from the    *)
+(* counters the library reports (LifeTrace), and judged by the ownership rules alone.                                 *)
+CONSTANTS Depth,
+          GHigh, GLow,     \* water marks of the build the histories are meant for (table size 2 * GHigh)
+          Goal             \* pressure mode: the situation in which the cache is thawed
 
-VARIABLES life, hist, kind, must
+VARIABLES life, hist, kind, must, tomb
 
-GenInit == life = LifeInit /\ hist = <<>> /\ kind = "" /\ must = <<>>       \* must: calls that have to come next
+GenInit == life = LifeInit /\ hist = <<>> /\ kind = "" /\ must = <<>> /\ tomb = {}    \* must: calls that have to come next
 
 RECURSIVE RemoveAll(_)
 RemoveAll(ks) == IF ks = {} THEN <<>>
@@ -31,7 +41,7 @@ Enabled(S) ==
 (* two-phase steps: first the kind of call (uniformly among the kinds that have an enabled call), then its arguments *)
 Choose == /\ kind = "" /\ Enabled(life) # {}
           /\ kind' \in {c.op : c \in Enabled(life)}
-          /\ UNCHANGED <<life, hist, must>>
+          /\ UNCHANGED <<life, hist, must, tomb>>
 
 Do == /\ kind # "" /\ kind' = ""
       /\ \E c \in {x \in Enabled(life) : x.op = kind} :
@@ -42,11 +52,66 @@ Do == /\ kind # "" /\ kind' = ""
                        ELSE IF c.op = "gthaw" THEN RemoveAll(GKeys)
                        ELSE <<>>
 
-GenNext == Choose \/ Do
+GenNext == (Choose \/ Do) /\ tomb' = tomb
 
-GenSpec == GenInit /\ [][GenNext]_<<life, hist, kind, must>>
+GenSpec == GenInit /\ [][GenNext]_<<life, hist, kind, must, tomb>>
 
 Finished == Draining /\ kind = "" /\ must = <<>> /\ Quiescent(life)
+
+(* ---- pressure mode ---- *)
+HashSize == 2 * GHigh
+RECURSIVE Collapse(_, _)
+Collapse(tb, idx) == IF idx \in tb THEN Collapse(tb \ {idx}, (idx + HashSize - 1) % HashSize) ELSE tb
+TombAfterRemove(tb, present, k) ==
+    LET t1 == tb \cup {k}   nx == (k + 1) % HashSize IN
+    IF nx \notin t1 /\ nx \notin (present \ {k}) THEN Collapse(t1, k) ELSE t1
+
+Thawed == \E n \in DOMAIN hist : hist[n].op = "gthaw"
+NLive  == Cardinality(life.glyphs)
+NTomb  == Cardinality(tomb)
+Dumping == Goal \in {"dump", "dump_over"}
+
+PInit == /\ life = LifeInit /\ hist = <<>> /\ kind = "" /\ tomb = {}
+         /\ must = <<Call("create", 1, 0, 1), Call("gcreate", 0, 0, 1)>>
+
+(* steering only: a goal with few live glyphs stops inserting once enough slots are taken for the removals to get there *)
+InsertCap == IF Goal = "settled" THEN GHigh + GLow ELSE HashSize - 1
+(* ... and a goal with many tombstones removes only glyphs whose removal leaves one (the next slot is taken) *)
+Leaves(S, k) == LET nx == (k + 1) % HashSize IN nx \in tomb \/ nx \in S.glyphs
+
+PEnabled(S) ==
+    IF must # <<>> THEN {must[1]}
+    ELSE IF Thawed THEN {c \in LifeCalls(S) : c.op = "unref"}
+    ELSE {c \in LifeCalls(S) :
+            \/ c.op = "ginsert" /\ NLive + NTomb < InsertCap             \* (the table refuses the glyph that would fill it)
+                                /\ (Dumping => c.j \notin tomb)         \* (an insert takes its tombstone back)
+            \/ c.op = "gremove" /\ c.j \in S.glyphs /\ (Dumping \/ NTomb < GHigh)
+                                /\ (Goal \in {"settled", "dump", "dump_over"} => Leaves(S, c.j))
+            \/ c.op \in {"glookup", "gcomp"}
+            \/ c.op = "gthaw" /\ GPressure(NLive, NTomb, GHigh, GLow) = Goal}
+
+PChoose == /\ kind = "" /\ PEnabled(life) # {}
+           /\ kind' \in {c.op : c \in PEnabled(life)}
+           /\ UNCHANGED <<life, hist, must, tomb>>
+
+PDo == /\ kind # "" /\ kind' = ""
+       /\ \E c \in {x \in PEnabled(life) : x.op = kind} :
+             \* whichever glyphs the thaw lets go, the calls that follow it are calls the client may make
+             /\ life' \in (IF c.op = "gthaw" THEN {GDropAll(Begin(life), {})} ELSE LifeStep(life, c))
+             /\ hist' = Append(hist, c)
+             /\ tomb' = IF c.op = "ginsert" THEN tomb \ {c.j}
+                        ELSE IF c.op = "gremove" THEN TombAfterRemove(tomb, life.glyphs, c.j)
+                        ELSE tomb
+             /\ \/ must # <<>> /\ must' = Tail(must)
+                \/ must = <<>> /\ c.op # "gthaw" /\ must' = <<>>
+                \/ must = <<>> /\ c.op = "gthaw" /\ must' \in
+                       {<<Call("gcomp", 0, 0, 0), Call("gcomp", 0, 0, 1)>> \o RemoveAll(GKeys) \o <<Call("gdestroy", 0, 0, 0)>>,
+                        <<Call("gcomp", 0, 0, 1), Call("gdestroy", 0, 0, 0)>>}
+
+PressSpec == PInit /\ [][PChoose \/ PDo]_<<life, hist, kind, must, tomb>>
+
+PFinished == Thawed /\ kind = "" /\ must = <<>> /\ Quiescent(life)
+EmitPressure == ~PFinished \/ PrintT(<<"VF:behaviour", ToJson(hist)>>)
 
 EmitBehaviour == ~Finished \/ PrintT(<<"VF:behaviour", ToJson(hist)>>)
 =============================================================================
